@@ -116,6 +116,18 @@ where
         Reveal<MacUpgraded<C, Fp25519>, Output = <RP25519 as Vectorizable<PRF_CHUNK>>::Array>,
     PrfHybridReport<BK, V>: Serializable,
 {
+    // A shard may be left without rows (e.g. by the shuffle). It has nothing to evaluate,
+    // and a total record count of zero cannot be specified, but the other shards still
+    // expect it to take part in the resharding.
+    if input_rows.is_empty() {
+        return reshard_try_stream(
+            ctx.narrow(&HybridStep::ReshardByPrf),
+            stream::empty(),
+            |ctx, _, report: &PrfHybridReport<BK, V>| report.match_key % ctx.shard_count(),
+        )
+        .await;
+    }
+
     let conv_records =
         TotalRecords::specified(div_round_up(input_rows.len(), Const::<CONV_CHUNK>))?;
     let eval_records = TotalRecords::specified(div_round_up(input_rows.len(), Const::<PRF_CHUNK>))?;
